@@ -370,8 +370,8 @@ def run_t7(ctx, w, tb):
                 param_fns.add(cs.callee)
     sub = set()
     for f in clear_fns:
-        for cs in E.call_sites(f):
-            if cs.local and cs.W:
+        for cs in E.sites[f]:            # incl. local functions passed by name to an iterator adaptor
+            if cs.local and cs.W and cs.callee in w.bodies and not cs.callee.startswith(f + "::{closure"):
                 sub.add(cs.callee)
     n = 0
     for f in sorted(clear_fns | sub):
@@ -441,6 +441,24 @@ def run_t7(ctx, w, tb):
                       "%s clears `%s` only at %s (high-water mark(s): %s): cells the previous sequence used beyond that keep their values and leak into the next sequence" % (f, arr, seen or "single cells", marks),
                       loc=w.fn_loc(f), sample={"fn": f, "storage": arr, "ranges": seen, "marks": marks})
     ctx.floor("T7d", 2, "clear routines with a storage array")
+
+    ctx.rule("T7e", "the collect action stores the byte it is given, unconditionally (the LAST private marker / intermediate selects the function, as in the extracted dispatch tables)")
+    collect_fns = set()
+    for cs in E.call_sites(feed):
+        if cs.local:
+            try:
+                if tb.classify_action(cs.callee) == "collect":
+                    collect_fns.add(cs.callee)
+            except H.Unsupported:
+                pass
+    for f in sorted(collect_fns):
+        sites = [(pt, WD.strip_names(t)) for f2, pt, p, t in w.assign_sites({f}, lambda p: p == ("arg1", tb.f_inter))]
+        want = ("adt", "core::option::Option", "Some", ("0",), (("load", ("arg2",)),))
+        via_calls = [cs.callee for cs in E.call_sites(f) if any(p[:2] == ("arg1", tb.f_inter) for p in cs.W)]
+        ok = bool(sites) and all(t == want for _, t in sites) and ("arg1", tb.f_inter) in w.mustwrite.must(f) and not via_calls
+        ctx.check(ok, "T7e", f, "%s does not simply store its input as the intermediate (assignments: %s; through calls: %s): which of several collected bytes wins decides which function is dispatched" %
+                  (f, [w.tstr(f, t) for _, t in sites], via_calls), loc=w.fn_loc(f), sample={"fn": f})
+    ctx.floor("T7e", 1, "collect actions")
 
     ctx.rule("T7b", "the clear routine resets every field a sequence can have written (intermediate, counter, all used parameters)")
     for f in sorted(clear_fns):
